@@ -3,7 +3,7 @@
    statement is pinned by [Check] and its assumptions are printed.
    Level: PARTIAL.  Proved for all inputs: string escapes and Type::new /
    type printing.  Refuted with witnesses (run through the PEG interpreter on
-   the grammar regenerated from graphql.pest): the six recorded deviations.
+   the grammar regenerated from graphql.pest): the recorded deviations.
    Not proved: that every document / value / block string round-trips (tied to
    the code by the correspondence run only). *)
 From AG Require Import ParserCheck ParserProofs.
@@ -87,6 +87,33 @@ Theorem C13_float_range_refuted :
   parse_query 400 (doc_text 4 s_1e309) = Err E_SYNTAX /\ known_class 4 s_1e309 = 5.
 Proof. exact float_range_refuted. Qed.
 
+Theorem C13_repeatable_refuted :
+  parse_schema 400 s_dir_plain = Ok [SDirective None [100] [] true [[70;73;69;76;68]]] /\
+  spec_schema 400 s_dir_plain = Ok [SDirective None [100] [] false [[70;73;69;76;68]]] /\
+  known_class_sdl s_dir_plain = 6.
+Proof. exact repeatable_refuted. Qed.
+
+Theorem C13_vardef_order_refuted :
+  (exists d, spec_expect 6 s_tail_spec = Some (Ok d)) /\
+  parse_query 400 (doc_text 6 s_tail_spec) = Err E_SYNTAX /\
+  spec_expect 6 s_tail_rev = Some (Err E_SYNTAX) /\
+  (exists d, parse_query 400 (doc_text 6 s_tail_rev) = Ok d) /\
+  known_class 6 s_tail_spec = 7 /\ known_class 6 s_tail_rev = 7.
+Proof. exact vardef_order_refuted. Qed.
+
+Theorem C13_enum_value_prefix_refuted :
+  spec_lex 20 s_enum_truex =
+    Some [TName [101;110;117;109]; TName [69]; TPunct 123; TName [116;114;117;101;120]; TPunct 125] /\
+  parse_schema 400 s_enum_truex = Err E_SYNTAX /\
+  parse_schema 400 s_enum_xtrue =
+    Ok [SType false None [69] [] (KEnum [{| ev_desc := None; ev_name := [120;116;114;117;101]; ev_dirs := [] |}])].
+Proof. exact enum_value_prefix_refuted. Qed.
+
+(* service documents, non-vacuity: every optional slot of an input value filled;
+   builder model = by-rule-name specification = the full tree *)
+Theorem C13_sdl_kitchen_sink : parse_schema 400 s_kitchen = spec_schema 400 s_kitchen.
+Proof. exact (proj1 sdl_kitchen_sink). Qed.
+
 Theorem C13_keyword_glue_refuted :
   spec_lex 20 s_queryX = Some [TName [113; 117; 101; 114; 121; 88]; TPunct 123; TName [97]; TPunct 125] /\
   parse_query 400 s_queryX =
@@ -110,4 +137,8 @@ Print Assumptions C13_block_blank_refuted.
 Print Assumptions C13_type_ws_refuted.
 Print Assumptions C13_token_boundary_refuted.
 Print Assumptions C13_float_range_refuted.
+Print Assumptions C13_repeatable_refuted.
+Print Assumptions C13_vardef_order_refuted.
+Print Assumptions C13_enum_value_prefix_refuted.
+Print Assumptions C13_sdl_kitchen_sink.
 Print Assumptions C13_keyword_glue_refuted.
